@@ -89,6 +89,9 @@ struct Stats {
     p_no_trailing_nl: u64,
     p_label_width_ge2: u64,
     p_label_width_ge4: u64,
+    p_label_width_ge5: u64,
+    p_exotic: u64,
+    p_mark_beyond_65535_cells: u64,
     max_lines: u64,
     violations: Vec<Violation>,
 }
@@ -119,6 +122,9 @@ impl Stats {
         self.p_no_trailing_nl += o.p_no_trailing_nl;
         self.p_label_width_ge2 += o.p_label_width_ge2;
         self.p_label_width_ge4 += o.p_label_width_ge4;
+        self.p_label_width_ge5 += o.p_label_width_ge5;
+        self.p_exotic += o.p_exotic;
+        self.p_mark_beyond_65535_cells += o.p_mark_beyond_65535_cells;
         self.max_lines = self.max_lines.max(o.max_lines);
         self.violations.extend(o.violations);
     }
@@ -171,9 +177,22 @@ fn probes(st: &mut Stats, c: &Case) {
         if l1 + 1 >= 1000 {
             st.p_label_width_ge4 += 1;
         }
+        if l1 + 1 >= 10000 {
+            st.p_label_width_ge5 += 1;
+        }
     }
     if t.contains('中') {
         st.p_wide += 1;
+    }
+    if !model::cells_are_modelled(t) {
+        st.p_exotic += 1;
+    }
+    if a < t.len() && t.len() > 60_000 {
+        let ls = model::lines(t);
+        let (s0, _) = ls[model::line_of_offset(t, a)];
+        if a - s0 > 65_535 {
+            st.p_mark_beyond_65535_cells += 1;
+        }
     }
     if !t.is_empty() && !t.ends_with('\n') {
         st.p_no_trailing_nl += 1;
@@ -218,7 +237,7 @@ fn run_case(st: &mut Stats, c: &Case, order: u64, fm: FaultMode, rng: &mut Split
         ff.push((api, ex));
     }
     // informational: do the four APIs agree on the text?
-    if ff.iter().any(|(_, e)| e.out != ff[0].1.out) {
+    if ff.iter().filter(|(a, _)| *a != Api::Decor).any(|(_, e)| e.out != ff[0].1.out) {
         st.api_text_mismatch += 1;
     }
     if fm == FaultMode::None {
@@ -227,6 +246,10 @@ fn run_case(st: &mut Stats, c: &Case, order: u64, fm: FaultMode, rng: &mut Split
     for (api, base) in ff.iter() {
         if *api == Api::ToString {
             continue; // std's to_string() has an infallible sink; nothing to inject
+        }
+        let huge = c.text.len() > 15_000;
+        if huge && *api != Api::Custom {
+            continue; // rendering a huge text costs ~0.1 s: faults are injected through one API only
         }
         if !matches!(base.outcome, Outcome::Ok) {
             continue; // already judged by the fault-free oracle
@@ -241,7 +264,7 @@ fn run_case(st: &mut Stats, c: &Case, order: u64, fm: FaultMode, rng: &mut Split
                         plans.push(Plan::sink(i, true, n));
                     }
                 }
-                if *api == Api::Custom {
+                if *api == Api::Custom || *api == Api::Decor {
                     for ch in 0..3 {
                         for j in 1..=base.cb_calls[ch] {
                             plans.push(Plan::cb(ch, j, false, false, n));
@@ -251,6 +274,7 @@ fn run_case(st: &mut Stats, c: &Case, order: u64, fm: FaultMode, rng: &mut Split
                 }
             }
             FaultMode::Sampled(k) => {
+                let k = if huge { 0 } else { k };
                 if n > 0 {
                     plans.push(Plan::sink(1, rng.chance(1, 2), n));
                     plans.push(Plan::sink(n, rng.chance(1, 2), n));
@@ -258,7 +282,7 @@ fn run_case(st: &mut Stats, c: &Case, order: u64, fm: FaultMode, rng: &mut Split
                         plans.push(Plan::sink(1 + rng.below(n), rng.chance(1, 3), n));
                     }
                 }
-                if *api == Api::Custom {
+                if *api == Api::Custom || *api == Api::Decor {
                     for ch in 0..3 {
                         let m = base.cb_calls[ch];
                         if m > 0 {
@@ -341,6 +365,11 @@ pub const EXTENDED: [char; 40] = [
     '\u{7f}', '字', '😀', '∆', ' ', 'Z', '\n', '\n',
 ];
 
+/// Characters without an agreed cell model: zero-width, combining, ambiguous-width, bidirectional, other "line separators"
+/// that are NOT line ends for this crate (only LF is). Sampled; for texts containing them only "returns", line numbers and line
+/// text are judged, never marker columns.
+pub const EXOTIC: [char; 14] = ['\u{301}', '\u{200d}', '\u{fe0f}', '°', '±', '§', '\u{5d0}', '\u{2028}', '\u{2029}', '\u{85}', '\u{feff}', '\u{ad}', '\u{1f1e9}', '\u{e0067}'];
+
 /// Swarm-style random short text: per-case weights, CRLF on/off, trailing newline on/off.
 fn random_short(rng: &mut SplitMix, min_len: usize, max_len: usize) -> String {
     let len = min_len + rng.below(max_len - min_len + 1);
@@ -348,6 +377,13 @@ fn random_short(rng: &mut SplitMix, min_len: usize, max_len: usize) -> String {
         let mut s = String::new();
         for _ in 0..len {
             s.push(if rng.chance(1, 3) { ALPHABET[rng.below(6)] } else { EXTENDED[rng.below(EXTENDED.len())] });
+        }
+        return s;
+    }
+    if rng.chance(1, 8) {
+        let mut s = String::new();
+        for _ in 0..len {
+            s.push(if rng.chance(1, 2) { ALPHABET[rng.below(6)] } else { EXOTIC[rng.below(EXOTIC.len())] });
         }
         return s;
     }
@@ -371,6 +407,43 @@ fn random_short(rng: &mut SplitMix, min_len: usize, max_len: usize) -> String {
 }
 
 /// Long text: many short lines so that line numbers cross 9→10, 99→100, 999→1000.
+/// Five-digit line numbers: a handful per run (rendering is quadratic in the number of lines).
+fn random_huge(rng: &mut SplitMix) -> String {
+    let n_lines = 10_003 + rng.below(30);
+    let mut s = String::new();
+    for i in 0..n_lines {
+        if i % 1000 == 999 {
+            s.push('中');
+        }
+        s.push('\n');
+    }
+    s
+}
+
+/// One very wide line (cheap to render): its length crosses 2^8, 2^15, 2^16, 2^17 cells, where integer widths change.
+/// Returns the text and the byte range of the wide line's last few characters.
+fn random_wide_line(rng: &mut SplitMix) -> (String, usize, usize) {
+    let len = [70usize, 260, 5_000, 33_000, 65_530, 66_000, 70_000, 132_000][rng.below(8)] + rng.below(12);
+    let mut s = String::new();
+    for _ in 0..rng.below(3) {
+        s.push_str("ab\n");
+    }
+    let start = s.len();
+    let wide = rng.chance(1, 3);
+    for _ in 0..len {
+        s.push(if wide && rng.chance(1, 4) { '中' } else { ['a', 'a', 'ß', '\t'][rng.below(4)] });
+    }
+    let near_end = s.len();
+    s.push_str("yz");
+    if rng.chance(3, 4) {
+        s.push('\n');
+    }
+    if rng.chance(1, 2) {
+        s.push_str("tail\n");
+    }
+    (s, start, near_end)
+}
+
 fn random_long(rng: &mut SplitMix) -> String {
     let targets = [7usize, 12, 101, 130, 1002, 1200];
     let n_lines = targets[rng.below(targets.len())] + rng.below(3);
@@ -397,13 +470,19 @@ fn random_case_in(rng: &mut SplitMix, text: &str) -> Case {
     let lines = model::lines(text);
     // bias offsets towards line starts, line ends, EOI and far-apart lines
     let pick = |rng: &mut SplitMix| -> usize {
+        if lines.len() > 5000 && rng.chance(2, 3) {
+            // five-digit line numbers: around the 9999 -> 10000 change of label width
+            let want = [9990usize, 9997, 9998, 9999, 10000, 10001, 10002][rng.below(7)];
+            let (s, e) = lines[want.min(lines.len() - 1)];
+            return if rng.chance(1, 2) { s } else { e.saturating_sub(1).max(s) };
+        }
         match rng.below(6) {
             0 if !lines.is_empty() => lines[rng.below(lines.len())].0,
             1 if !lines.is_empty() => lines[rng.below(lines.len())].1,
             2 => text.len(),
             3 if !lines.is_empty() => {
                 // near a label-width change
-                let want = [8usize, 9, 10, 98, 99, 100, 998, 999, 1000][rng.below(9)];
+                let want = [8usize, 9, 10, 98, 99, 100, 998, 999, 1000, 9998, 9999, 10000, 10001][rng.below(if lines.len() > 5000 { 13 } else { 9 })];
                 lines[want.min(lines.len() - 1)].0
             }
             _ => bs[rng.below(bs.len())],
@@ -424,6 +503,8 @@ struct Budget {
     exhaustive_all_faults_every: u64,
     sampled_short: u64,
     sampled_long: u64,
+    sampled_huge: u64,
+    sampled_wide: u64,
     sampled_faults: usize,
 }
 
@@ -434,6 +515,8 @@ fn budget(tier: &str) -> Budget {
             exhaustive_all_faults_every: 8,
             sampled_short: 400_000,
             sampled_long: 6_000,
+            sampled_huge: 24,
+            sampled_wide: 600,
             sampled_faults: 3,
         },
         _ => Budget {
@@ -441,6 +524,8 @@ fn budget(tier: &str) -> Budget {
             exhaustive_all_faults_every: 4,
             sampled_short: 40_000,
             sampled_long: 500,
+            sampled_huge: 4,
+            sampled_wide: 60,
             sampled_faults: 3,
         },
     }
@@ -483,9 +568,44 @@ fn minimise(v: &Violation) -> Violation {
     };
     // a fault plan's indices refer to the fault-free call sequence of the case; when the text shrinks
     // the plan is re-targeted to the same relative position if the original index no longer exists.
+    // 0. ddmin over blocks of characters (large texts): remove a block that does not straddle a span boundary
+    {
+        let mut block = best.case.text.chars().count() / 2;
+        let mut budget = 4000usize;
+        while block >= 1 && budget > 0 {
+            let idx: Vec<usize> = best.case.text.char_indices().map(|(i, _)| i).chain([best.case.text.len()]).collect();
+            let n = idx.len() - 1;
+            let mut k = 0;
+            let mut removed_any = false;
+            while k + block <= n && budget > 0 {
+                let (lo, hi) = (idx[k], idx[k + block]);
+                let (a, b) = (best.case.a, best.case.b);
+                let straddles = (lo < a && a < hi) || (lo < b && b < hi);
+                if !straddles {
+                    let mut t = best.case.text.clone();
+                    t.replace_range(lo..hi, "");
+                    let sh = |x: usize| if x >= hi { x - (hi - lo) } else { x };
+                    let cand = Case { text: t, a: sh(a), b: sh(b), is_pos: best.case.is_pos };
+                    budget -= 1;
+                    if cand.valid() && cand.a <= cand.b {
+                        if let Some(d) = has(&cand, best.api, &best.plan, &best.class) {
+                            best.case = cand;
+                            best.detail = d;
+                            removed_any = true;
+                            break; // indices changed: recompute
+                        }
+                    }
+                }
+                k += block;
+            }
+            if !removed_any {
+                block /= 2;
+            }
+        }
+    }
     let mut progress = true;
     let mut rounds = 0;
-    while progress && rounds < 200 {
+    while progress && rounds < 200 && best.case.text.chars().count() <= 400 {
         progress = false;
         rounds += 1;
         let chars: Vec<(usize, char)> = best.case.text.char_indices().collect();
@@ -588,10 +708,10 @@ fn cmd_run(args: &BTreeMap<String, String>) -> i32 {
     let t0 = Instant::now();
     let n_exh = count_strings(b.exhaustive_len);
     // work items: [0, n_exh) exhaustive strings; then sampled short; then sampled long
-    let total_items = n_exh + b.sampled_short + b.sampled_long;
+    let total_items = n_exh + b.sampled_short + b.sampled_long + b.sampled_huge + b.sampled_wide;
     let next = AtomicUsize::new(0);
     let global = Mutex::new(Stats::default());
-    const CHUNK: usize = 64;
+    const CHUNK: usize = 2;
     std::thread::scope(|s| {
         for _ in 0..threads {
             s.spawn(|| {
@@ -619,9 +739,25 @@ fn cmd_run(args: &BTreeMap<String, String>) -> i32 {
                             let c = random_case_in(&mut rng, &text);
                             let fm = if rng.chance(1, 8) { FaultMode::All } else { FaultMode::Sampled(b.sampled_faults) };
                             run_case(&mut st, &c, item * 64, fm, &mut rng, false);
-                        } else {
+                        } else if item < n_exh + b.sampled_short + b.sampled_long {
                             let text = random_long(&mut rng);
                             for k in 0..4 {
+                                let c = random_case_in(&mut rng, &text);
+                                run_case(&mut st, &c, item * 64 + k, FaultMode::Sampled(1), &mut rng, false);
+                            }
+                        } else if item >= n_exh + b.sampled_short + b.sampled_long + b.sampled_huge {
+                            let (text, start, near_end) = random_wide_line(&mut rng);
+                            let bs: Vec<usize> = text.char_indices().map(|(i, _)| i).filter(|i| *i + 12 >= near_end || *i <= start + 2).chain([text.len()]).collect();
+                            for k in 0..4 {
+                                let x = bs[rng.below(bs.len())];
+                                let y = bs[rng.below(bs.len())];
+                                let (a, bb) = if x <= y { (x, y) } else { (y, x) };
+                                let c = if k == 0 { Case { text: text.clone(), a: near_end, b: near_end, is_pos: true } } else { Case { text: text.clone(), a, b: bb, is_pos: false } };
+                                run_case(&mut st, &c, item * 64 + k, FaultMode::Sampled(1), &mut rng, false);
+                            }
+                        } else {
+                            let text = random_huge(&mut rng);
+                            for k in 0..1 {
                                 let c = random_case_in(&mut rng, &text);
                                 run_case(&mut st, &c, item * 64 + k, FaultMode::Sampled(1), &mut rng, false);
                             }
@@ -674,7 +810,7 @@ fn cmd_run(args: &BTreeMap<String, String>) -> i32 {
         "executions": st.executions, "fault_free_executions": st.fault_free, "faulted_executions": st.faulted,
         "cases": st.cases, "distinct_nontrivial": distinct,
         "exhaustive_max_len": b.exhaustive_len, "exhaustive_strings": n_exh,
-        "sampled_short_cases": b.sampled_short, "sampled_long_texts": b.sampled_long,
+        "sampled_short_cases": b.sampled_short, "sampled_long_texts": b.sampled_long, "sampled_huge_texts": b.sampled_huge, "sampled_wide_line_texts": b.sampled_wide,
         "faults_fired": {"sink_write_error": st.sink_faults_fired, "span_formatter_error": st.cb_faults_fired[0],
             "marker_formatter_error": st.cb_faults_fired[1], "number_formatter_error": st.cb_faults_fired[2],
             "sticky_plans": st.sticky_plans},
@@ -683,7 +819,7 @@ fn cmd_run(args: &BTreeMap<String, String>) -> i32 {
         "api_text_mismatch_cases": st.api_text_mismatch,
         "probes": {"empty_input": st.p_empty_input, "offset_at_end_of_input": st.p_eoi, "start_at_line_start": st.p_line_start,
             "multi_line_span": st.p_multi_line, "span_over_5_lines": st.p_over5_lines, "wide_char": st.p_wide,
-            "no_trailing_newline": st.p_no_trailing_nl, "label_width_ge_2": st.p_label_width_ge2, "label_width_ge_4": st.p_label_width_ge4,
+            "no_trailing_newline": st.p_no_trailing_nl, "label_width_ge_2": st.p_label_width_ge2, "label_width_ge_4": st.p_label_width_ge4, "label_width_ge_5": st.p_label_width_ge5, "texts_with_unmodelled_cells": st.p_exotic, "mark_beyond_65535_cells": st.p_mark_beyond_65535_cells,
             "max_lines_in_a_text": st.max_lines},
         "violation_count": st.violations.len(),
         "violations": reported,
